@@ -134,7 +134,11 @@ func runC19(tier string) int {
 	}
 	mk := func(rf ref, tag string) tooldriver.Case {
 		o := orders[rf.input][rf.order]
-		return makeCase(fmt.Sprintf("%s-i%d-o%d", tag, rf.input, rf.order), ins[rf.input], deliv[rf.input], simos.NoFaults(), o.mode, o.seed, 2)
+		d := deliv[rf.input]
+		// the -o path sometimes already holds a longer file from an earlier run:
+		// what is generated must not depend on it
+		d.stale = d.outFile && rf.order%3 == 1
+		return makeCase(fmt.Sprintf("%s-i%d-o%d", tag, rf.input, rf.order), ins[rf.input], d, simos.NoFaults(), o.mode, o.seed, 2)
 	}
 	var sessions [][]tooldriver.Case
 	var owner [][]ref
